@@ -48,6 +48,7 @@ type FuncContract struct {
 	Ensures  []Clause
 	Loops    map[int][]Clause
 	Ats      []AtClause
+	NoCalls  []AtClause // "nocall <callee> [Cnn] label": the function itself never calls <callee> (a frame condition)
 	Witness  []LetDef // named entry-state terms whose model values feed the counterexample replay
 	Locals   []QVar   // declared source-level locals (name, type): enables rename-tolerant resolution
 	Sets     []LetDef // ghost updates performed at function exit: sets g = expr
@@ -122,7 +123,7 @@ func NewSpecs() *Specs {
 	return &Specs{Funcs: map[string]*FuncContract{}, Spec: map[string]*SpecFunc{}, Axioms: map[string]*Axiom{}, Ghost: map[string]*GhostVar{}, Consts: map[string]string{}}
 }
 
-var kwRe = regexp.MustCompile(`^(func|iface|spec|macro|axiom|lemma|ghost|effectfree|property|requires|ensures|loop|let|trusted|pure|inline|noinline|safe|uses|modifies|noverify|noeffects|at|sets|local|reveals|opaque|witness|assumes)\b`)
+var kwRe = regexp.MustCompile(`^(func|iface|spec|macro|axiom|lemma|ghost|effectfree|property|requires|ensures|loop|let|trusted|pure|inline|noinline|safe|uses|modifies|noverify|noeffects|at|sets|local|reveals|opaque|witness|assumes|nocall)\b`)
 
 // LoadFile parses one contract file. pkgPath is the import path used for
 // unqualified function names ("" for .spec files, which use full paths).
@@ -347,6 +348,26 @@ func (s *Specs) LoadFile(path, pkgPath string) error {
 			cur.Trusted = true
 		case "noverify":
 			cur.NoVerify = true
+		case "nocall":
+			if cur == nil {
+				return fail(l, "nocall outside func block")
+			}
+			fs := strings.Fields(rest)
+			if len(fs) < 1 {
+				return fail(l, "expected: nocall <callee> [[Cnn]] [label]")
+			}
+			c := Clause{File: path, Line: l.line, Src: "the function does not call " + fs[0]}
+			for _, f := range fs[1:] {
+				if m := regexp.MustCompile(`^\[(C[0-9]+)\]$`).FindStringSubmatch(f); m != nil {
+					c.Prop = m[1]
+				} else {
+					c.Label = strings.TrimSuffix(f, ":")
+				}
+			}
+			if c.Label == "" {
+				c.Label = "nocall" + strconv.Itoa(len(cur.NoCalls)+1)
+			}
+			cur.NoCalls = append(cur.NoCalls, AtClause{Callee: fs[0], C: c})
 		case "noeffects":
 			cur.NoEffects = true
 		case "pure":
